@@ -59,6 +59,9 @@ let () =
         let (args, after) = split [] rest in
         let a n = ios (List.nth args n) in
         let impl_res, impl_states = (match after with r :: st -> (r, st) | [] -> ("?", [])) in
+        if impl_res = "panic" then begin
+          skipping := true; incr mism;
+          if !mism <= 30 then Printf.printf "MISMATCH\t%s\t%d\t%s\t%s\n" !seq !opi "implementation panicked" line end else
         let o = (match k with
           | "V" -> ONewVars (zi (a 0), zi (a 1))
           | "N" -> ONew (zi (a 0), nati (a 1), zi (a 2))
